@@ -28,6 +28,7 @@ import (
 type Failer interface {
 	Fatalf(format string, args ...interface{})
 	Logf(format string, args ...interface{})
+	Skipf(format string, args ...interface{})
 }
 
 type subStats struct {
@@ -427,7 +428,12 @@ func Check(t Failer, subName string, c interface{}, err error) {
 		return
 	}
 	if IsHarnessErr(err) {
-		t.Fatalf("%v", err)
+		// not a verdict: discard the case (rapid treats a skipped case as
+		// invalid, so shrinking cannot end on harness trouble); persistent
+		// harness trouble surfaces as rapid's "too many invalid" = exit 2
+		Skip(subName, "harness-error")
+		fmt.Fprintf(os.Stderr, "%s/%s harness trouble (case discarded): %v\n", Property, subName, err)
+		t.Skipf("%v", err)
 	}
 	Fail(t, subName, c, "%v", err)
 }
